@@ -262,6 +262,15 @@ fn pc_scenario(a: &[&str]) -> String {
                         Err(_) => "err".into(),
                     }
                 }
+                "B" => {
+                    // read-only: the bytes of captured datagram k (lets oracles and the model line use real lengths)
+                    let k: usize = num(p[1]);
+                    if k >= sent.len() {
+                        "-".into()
+                    } else {
+                        format!("b{}", hex(&sent[k]))
+                    }
+                }
                 "D" | "F" | "T" | "R" | "L" => {
                     let o = objs.get_mut(&num(p[1])).unwrap();
                     let data: Vec<u8> = match op {
